@@ -179,7 +179,9 @@ def check_table(case):
                             needed = cls != "data" or (api != "row_count" and path in kept[fn])
                             must_raise = needed and (payload == "ERR" or not parse_ok or (cls == "data" and changed and ver is None))
                             for handle_kind in ("fresh", "warm"):
-                              if handle_kind == "warm" and (cls != "data" or payload == "ERR"):
+                              if handle_kind == "warm" and payload == "ERR":
+                                  continue
+                              if handle_kind == "warm" and cls != "data" and (api not in ("scan", "row_count", "batches_big") or fn != "none"):
                                   continue
                               try:
                                 t2 = w.open() if handle_kind == "fresh" else t_warm
@@ -228,7 +230,7 @@ def _judge(out, res_nontrivial, case, cls, dname, path, api, ver, fn, exp, got, 
         dn = dname.split("@")[0]
         if cls == "metadata" and dn == "delete":
             sym = "served-older-version"  # one root cause, whatever the older version happens to contain
-        hk = "" if handle_kind == "fresh" else "/warm-handle"
+        hk = "" if handle_kind == "fresh" or sym == "served-older-version" else "/warm-handle"
         out["violations"].append((f"fail-open/{cls}/{dn}/{sym}{hk}",
                                   f"{case['world']}: {cls} file {path} damaged by {dname}; {api}(verify={ver}, filter={fn}) through a {handle_kind} handle returned {_short(got)} instead of raising (undamaged: {_short(exp)})"))
     elif not needed and got != exp:
